@@ -543,24 +543,225 @@ def r1(ctx):
             ctx.ok(f.key, "mutates only fresh parts of its clone")
 
 
+COPY_FUNCTIONS = ("sql/base.py::Generative._generate", "sql/elements.py::ClauseElement._clone")
+MEMO_KEYS = frozenset({"self._memoized_keys"})
+SELF_DICT = "self.__dict__"
+
+
+def _copy_function_facts(ctx, key):
+    """Reads one shallow-copy function (`_generate` / `_clone`) without relying on local names or statement shapes.
+
+    The places where the copy gets its attribute dictionary are the statements `X.__dict__ = V` and
+    `X.__dict__.update(V)`.  Two facts are established for them:
+
+    fresh     -- the fresh-copy typestate (sqlastatic.fresh) says V is a new dict on every path that reaches the
+                 statement (a `.copy()`, `dict(...)`, a dict display / comprehension, or a local that holds one),
+                 resp. X is a new object for the `.update` form; V is computed from `self.__dict__`.
+    filtered  -- on every path on which `self._memoized_keys` is non-empty (branches that are taken only when it
+                 is empty are cut: three-valued evaluation of the tests), the dict that reaches the statement has
+                 no memoised key: it is defined by a comprehension / dict(generator) whose key variable is tested
+                 `not in KEYS` (or iterates `keys - KEYS`), or it starts empty and is filled only under the branch
+                 outcome `k not in KEYS`, or a loop `for k in KEYS: D.pop(k, ...)` / `del D[k]` lies on every
+                 path from the definition to the function's exit.
+    Returns (sites, fresh_problems, filter_problems)."""
+    from ._helpers_rob_c2 import Scope, ReachingDefs, truth, conj_atoms, _flatten_with_path
+    from ..astutil import lexical_guards
+    f = ctx.func(key)
+    sc = Scope(ctx, f)
+    g = sc.g
+    an = FreshAnalysis(g, {p: S for p in f.params})
+
+    def is_keys(e, at):
+        if isinstance(e, ast.Call) and (call_name(e) or "") in ("set", "frozenset", "tuple", "list", "sorted") and len(e.args) == 1:
+            e = e.args[0]
+        return isinstance(e, (ast.Name, ast.Attribute)) and at is not None and sc.deps(e, at, must=True) == MEMO_KEYS
+
+    tcache: Dict[int, Optional[bool]] = {}
+
+    def nonempty_edges(a, b_, lab):
+        """edges that can be taken when self._memoized_keys is non-empty (no exceptional edges)"""
+        if lab == "exc":
+            return False
+        nd = g.nodes[a]
+        if nd.kind == "test" and lab in ("true", "false"):
+            if a not in tcache:
+                tcache[a] = truth(nd.stmt.test, lambda e: is_keys(e, a), True)
+            t = tcache[a]
+            if (t is True and lab == "false") or (t is False and lab == "true"):
+                return False
+        return True
+
+    rd2 = ReachingDefs(g, f.node, edge_ok=nonempty_edges)
+
+    # ---- where the copy receives its dictionary
+    sites = []  # (cfg node, X name, value expr, 'store' | 'update', ast node)
+    for nd in g.nodes:
+        st = nd.stmt
+        if st is None or not isinstance(st, ast.stmt) or nd.kind not in ("stmt", "test", "for", "with_enter") or nd.copy:
+            continue
+        if nd.kind == "stmt" and isinstance(st, (ast.Assign, ast.AnnAssign)) and getattr(st, "value", None) is not None:
+            tgts = st.targets if isinstance(st, ast.Assign) else [st.target]
+            for t in tgts:
+                if isinstance(t, ast.Attribute) and t.attr == "__dict__" and isinstance(t.value, ast.Name):
+                    sites.append((nd.id, t.value.id, st.value, "store", st))
+        from ..astutil import own_exprs
+        for part in own_exprs(st):
+            for c in ast.walk(part):
+                if isinstance(c, ast.Call) and isinstance(c.func, ast.Attribute) and c.func.attr == "update" and len(c.args) == 1 \
+                        and isinstance(c.func.value, ast.Attribute) and c.func.value.attr == "__dict__" \
+                        and isinstance(c.func.value.value, ast.Name):
+                    sites.append((nd.id, c.func.value.value.id, c.args[0], "update", c))
+    sites = [x for x in sites if SELF_DICT in sc.deps(x[2], x[0]) or an.state_at(x[0], x[1]) != S]
+    fresh_bad, filter_bad = [], []
+    if not sites:
+        return f, sites, fresh_bad, filter_bad
+
+    # ---- fresh
+    for nid, x, v, how, node in sites:
+        pre = an.pre.get(nid)
+        if pre is None:
+            continue
+        if how == "store":
+            st_ = an.state(v, pre)
+            if st_ != F:
+                fresh_bad.append(f"`{unparse(node)[:70]}` (line {node.lineno}): the value is not a new dict on every path (state {st_})")
+        else:
+            st_ = join(an.state_at(nid, x), pre.get(x + ".__dict__", F))
+            if st_ != F:
+                fresh_bad.append(f"`{unparse(node)[:70]}` (line {node.lineno}): {x} is not a newly created object here (state {st_})")
+
+    # ---- filtered
+    def filtered_expr(e, at):
+        comp, keyexpr = None, None
+        if isinstance(e, ast.DictComp):
+            comp, keyexpr = e, e.key
+        elif isinstance(e, ast.Call) and (call_name(e) or "") == "dict" and len(e.args) == 1 and not e.keywords \
+                and isinstance(e.args[0], (ast.GeneratorExp, ast.ListComp)) and isinstance(e.args[0].elt, ast.Tuple) \
+                and len(e.args[0].elt.elts) == 2:
+            comp, keyexpr = e.args[0], e.args[0].elt.elts[0]
+        if comp is None or not isinstance(keyexpr, ast.Name):
+            return False
+        k = keyexpr.id
+        for gen in comp.generators:
+            if any(isinstance(leaf, ast.Name) and leaf.id == k for leaf, _ in _flatten_with_path(gen.target)):
+                it = gen.iter
+                if isinstance(it, ast.BinOp) and isinstance(it.op, ast.Sub) and is_keys(it.right, at):
+                    return True
+                if isinstance(it, ast.Call) and isinstance(it.func, ast.Attribute) and it.func.attr == "difference" \
+                        and len(it.args) == 1 and is_keys(it.args[0], at):
+                    return True
+            for c in gen.ifs:
+                for a_, pol in conj_atoms(c, True):
+                    if pol is False and isinstance(a_, ast.Compare) and len(a_.ops) == 1 and isinstance(a_.ops[0], ast.In) \
+                            and isinstance(a_.left, ast.Name) and a_.left.id == k and is_keys(a_.comparators[0], at):
+                        return True
+        return False
+
+    def guarded_fills(e, names):
+        """`D = {}` ... `D[k] = v` only under the branch outcome `k not in KEYS`."""
+        empty = (isinstance(e, ast.Dict) and not e.keys) or (isinstance(e, ast.Call) and (call_name(e) or "") == "dict"
+                                                              and not e.args and not e.keywords)
+        if not empty:
+            return False
+        n_ok = 0
+        for nd in g.nodes:
+            st = nd.stmt
+            if nd.kind != "stmt" or not isinstance(st, ast.stmt) or not rd2.reachable(nd.id):
+                continue
+            for part in own_exprs(st):
+                for c in ast.walk(part):
+                    if isinstance(c, ast.Call) and isinstance(c.func, ast.Attribute) and isinstance(c.func.value, ast.Name) \
+                            and c.func.value.id in names and c.func.attr in ("update", "setdefault", "__setitem__"):
+                        return False
+            if not isinstance(st, ast.Assign):
+                continue
+            for t in st.targets:
+                if isinstance(t, ast.Subscript) and isinstance(t.value, ast.Name) and t.value.id in names:
+                    if not isinstance(t.slice, ast.Name):
+                        return False
+                    ok = False
+                    for test, pol in g.edge_guards(nd.id):
+                        for a_, p_ in conj_atoms(test, pol):
+                            if p_ is False and isinstance(a_, ast.Compare) and len(a_.ops) == 1 and isinstance(a_.ops[0], ast.In) \
+                                    and isinstance(a_.left, ast.Name) and a_.left.id == t.slice.id and is_keys(a_.comparators[0], nd.id):
+                                ok = True
+                    if not ok:
+                        return False
+                    n_ok += 1
+        return n_ok > 0
+
+    pm = f.module.parents()
+
+    def removal_loops(dict_names):
+        out = []
+        for nd in g.nodes:
+            if nd.kind != "for" or not isinstance(nd.stmt.target, ast.Name) or not is_keys(nd.stmt.iter, nd.id):
+                continue
+            kv = nd.stmt.target.id
+            for x in walk_stmts(nd.stmt.body):
+                hit = None
+                if isinstance(x, ast.Expr) and isinstance(x.value, ast.Call) and isinstance(x.value.func, ast.Attribute) \
+                        and x.value.func.attr in ("pop", "__delitem__") and x.value.args and isinstance(x.value.args[0], ast.Name) \
+                        and x.value.args[0].id == kv and (dotted(x.value.func.value) or "") in dict_names:
+                    hit = x
+                elif isinstance(x, ast.Delete):
+                    for t in x.targets:
+                        if isinstance(t, ast.Subscript) and isinstance(t.slice, ast.Name) and t.slice.id == kv \
+                                and (dotted(t.value) or "") in dict_names:
+                            hit = x
+                if hit is None:
+                    continue
+                # the removal may only be guarded by `k in D`
+                plain = True
+                for test, pol in lexical_guards(pm, hit, stop=nd.stmt):
+                    for a_, p_ in conj_atoms(test, pol):
+                        if not (p_ is True and isinstance(a_, ast.Compare) and len(a_.ops) == 1 and isinstance(a_.ops[0], ast.In)
+                                and isinstance(a_.left, ast.Name) and a_.left.id == kv and (dotted(a_.comparators[0]) or "") in dict_names):
+                            plain = False
+                if plain:
+                    out.append(nd.id)
+        return out
+
+    n_reach = 0
+    for nid, x, v, how, node in sites:
+        if not rd2.reachable(nid):
+            continue  # only executed when there is nothing memoised
+        n_reach += 1
+        names = sc.alias_names(v, nid, rd2) if isinstance(v, ast.Name) else set()
+        dict_names = set(names) | {x + ".__dict__"}
+        leaves = sc.origins(v, nid, rd2) if isinstance(v, ast.Name) else [("expr", v, nid)]
+        loops = removal_loops(dict_names)
+        for kind, e, dn in leaves:
+            if kind == "expr" and (filtered_expr(e, dn) or guarded_fills(e, names)):
+                continue
+            w = g.must_pass([dn], [g.exit], loops, edge_ok=nonempty_edges) if loops else ["no filter"]
+            if w is not None:
+                what = unparse(e)[:60] if kind == "expr" else f"{e.name} ({e.kind})"
+                filter_bad.append(f"`{what}` (line {g.nodes[dn].lineno}) reaches `{unparse(node)[:50]}` with the memoised keys in it")
+    if not n_reach:
+        filter_bad.append("no statement gives the copy its __dict__ when self._memoized_keys is non-empty")
+    return f, sites, fresh_bad, filter_bad
+
+
+def _generate_call_of(wsc, e, at):
+    """`P._generate()` where P is a parameter of the wrapper (through aliases) -> atoms of P, else None."""
+    if isinstance(e, ast.Call) and isinstance(e.func, ast.Attribute) and e.func.attr == "_generate" and not e.args:
+        return wsc.param_atoms(e.func.value, at)
+    return None
+
+
 @R.rule("C03-R2", floor=8, template="T-FLOW",
         desc="_generate()/_clone() give the copy its own __dict__; the _generative decorator runs the method "
              "on the copy and returns the copy")
 def r2(ctx):
-    for key in ("sql/base.py::Generative._generate", "sql/elements.py::ClauseElement._clone"):
-        f = ctx.func(key)
-        stores = [(d, st) for d, e, st in attr_stores(f.node) if d.endswith(".__dict__")]
-        ctx.require(stores, f"{key} no longer assigns __dict__ of the copy")
-        good = True
-        for d, st in stores:
-            v = st.value
-            txt = unparse(v)
-            fresh = isinstance(v, ast.DictComp) or (isinstance(v, ast.Call) and (call_name(v) or "").endswith(".copy")) or \
-                (isinstance(v, ast.Call) and call_name(v) == "dict")
-            if not (fresh and "self.__dict__" in txt):
-                good = False
-        ctx.check(good, key, "the copy's __dict__ is not a fresh copy of self.__dict__ (attribute stores on the copy "
-                             "would write through to the original)", "__dict__ copied", f.loc)
+    from ._helpers_rob_c2 import Scope
+    facts = {}
+    for key in COPY_FUNCTIONS:
+        f, sites, fresh_bad, filter_bad = facts[key] = _copy_function_facts(ctx, key)
+        ctx.require(sites, f"{key} no longer assigns __dict__ of the copy (X.__dict__ = V / X.__dict__.update(V) with V "
+                           f"computed from self.__dict__)")
+        ctx.check(not fresh_bad, key, "the copy's __dict__ is not a fresh copy of self.__dict__ (attribute stores on the copy "
+                                      "would write through to the original): " + "; ".join(fresh_bad), "__dict__ copied", f.loc)
     # memoisations that are meant not to travel with the copy: registered in _memoized_keys by the HasMemoized
     # decorators, and skipped by both copy functions (R1/R3 rely on this for `memoized_attribute` names)
     hm = ctx.index.cls("util/langhelpers.py::HasMemoized")
@@ -573,39 +774,58 @@ def r2(ctx):
         ctx.check(bool(reg), fn_.key + ":registers-key",
                   "the memoised value is stored in __dict__ without registering its name in _memoized_keys: it would be "
                   "carried over (shared) by _generate()/_clone()", "registers the key in _memoized_keys", fn_.loc)
-    for key in ("sql/base.py::Generative._generate", "sql/elements.py::ClauseElement._clone"):
-        f = ctx.func(key)
-        comps = [n for n in ast.walk(f.node) if isinstance(n, ast.DictComp)]
-        skipvars = {n_ for n_, v, st in name_stores(f.node) if v is not None and (dotted(v) or "") == "self._memoized_keys"}
-        filtered = any(
-            any(isinstance(t, ast.Compare) and len(t.ops) == 1 and isinstance(t.ops[0], ast.NotIn)
-                and ((isinstance(t.comparators[0], ast.Name) and t.comparators[0].id in skipvars)
-                     or (dotted(t.comparators[0]) or "") == "self._memoized_keys")
-                for gen in c.generators for t in gen.ifs)
-            for c in comps)
-        ctx.check(filtered, key + ":skips-memoized", "the copy keeps the memoised values named in _memoized_keys (computed for "
-                                                     "the original, stale and shared on the copy)",
+    for key in COPY_FUNCTIONS:
+        f, sites, fresh_bad, filter_bad = facts[key]
+        ctx.check(not filter_bad, key + ":skips-memoized", "the copy keeps the memoised values named in _memoized_keys (computed for "
+                                                           "the original, stale and shared on the copy): " + "; ".join(filter_bad),
                   "memoised keys are not copied", f.loc)
-    # decorator
-    m = ctx.index.module("sql/base.py")
+    # decorator: on every path the wrapped function receives, as its receiver, the result of <receiver>._generate()
+    # -- never the object the wrapper was called on -- and the wrapper returns that copy (or what the function,
+    # which is required to return its receiver, returned)
     outer = ctx.func("sql/base.py::_generative")
     inner = [n for n in ast.walk(outer.node) if isinstance(n, ast.FunctionDef) and n is not outer.node]
     ctx.require(inner, "_generative has no inner wrapper")
     w = inner[0]
-    g = ctx.cfg(w)
-    gens = g.find_calls("_generate")
-    fncalls = [n.id for n in g.nodes if n.stmt is not None and isinstance(n.stmt, ast.stmt) and any(
-        isinstance(c.func, ast.Name) and c.func.id == "fn" for c in calls_in(n.stmt))]
+    wsc = Scope(ctx, w, module=outer.module)
+    g = wsc.g
+    callables = set(outer.params) | set(wsc.params)
+    fncalls = []
+    for n in wsc.local_walk():
+        if isinstance(n, ast.Call) and isinstance(n.func, ast.Name) and n.func.id in callables and wsc.node_of(n) is not None:
+            at = wsc.node_of(n)
+            pa = wsc.param_atoms(n.func, at)
+            if pa is not None or not wsc.rd.at(at, n.func.id):
+                fncalls.append((n, at))
+    gens = [n for n in wsc.local_walk() if isinstance(n, ast.Call) and wsc.node_of(n) is not None
+            and _generate_call_of(wsc, n, wsc.node_of(n)) is not None]
     ctx.require(gens and fncalls, "_generative wrapper: no self._generate() / fn(...) call found")
-    rebinds = [n for n in gens if isinstance(g.nodes[n].stmt, ast.Assign) and unparse(g.nodes[n].stmt.targets[0]) == "self"]
-    w1 = g.always_preceded(fncalls[0], rebinds) if rebinds else ["no `self = self._generate()`"]
-    call = [c for c in calls_in(g.nodes[fncalls[0]].stmt) if isinstance(c.func, ast.Name) and c.func.id == "fn"][0]
-    passes_self = call.args and unparse(call.args[0]) == "self"
+    problems = []
+    copies = set()
+    for c, at in fncalls:
+        if not c.args or isinstance(c.args[0], ast.Starred):
+            problems.append(f"`{unparse(c)[:50]}` is not given a receiver")
+            continue
+        for kind, e, dn in wsc.origins(c.args[0], at):
+            if kind == "expr" and _generate_call_of(wsc, e, dn) is not None:
+                copies.add(id(e))
+            else:
+                what = unparse(e)[:40] if kind == "expr" else f"the wrapper's own argument `{e.name}`"
+                problems.append(f"`{unparse(c)[:50]}` runs the method on {what}, not on a copy made by _generate()")
     rets = [r for r in returns_of(w) if r.value is not None]
-    ret_self = rets and all(unparse(r.value) == "self" for r in rets)
-    ctx.check(w1 is None and passes_self and ret_self, "sql/base.py::_generative",
-              "the decorator does not (copy, call fn on the copy, return the copy)", "copy -> fn(copy) -> return copy",
-              outer.loc, w1)
+    ret_nodes = [n_ for r in rets for n_ in g.nodes_for(r)]
+    if not rets or g.witness([g.entry], [g.exit], avoid=ret_nodes, edge_ok=lambda a, b_, lab: lab != "exc") is not None:
+        problems.append("a path through the wrapper does not return the copy")
+    fn_ids = {id(c) for c, _ in fncalls}
+    for r in rets:
+        at = wsc.node_of(r.value)
+        for kind, e, dn in wsc.origins(r.value, at):
+            if kind == "expr" and (id(e) in copies or id(e) in fn_ids):
+                continue
+            what = unparse(e)[:40] if kind == "expr" else f"the wrapper's own argument `{e.name}`"
+            problems.append(f"`{unparse(r)[:40]}` returns {what}, not the copy the method ran on")
+    ctx.check(not problems, "sql/base.py::_generative",
+              "the decorator does not (copy, call fn on the copy, return the copy): " + "; ".join(problems),
+              "copy -> fn(copy) -> return copy", outer.loc)
     ctx.ok("sql/base.py::_generative:wrapper-cfg", f"{len(g.nodes)} nodes", nontrivial=False)
 
 
@@ -806,3 +1026,85 @@ R.mutant("generate-keeps-memoized", "sql/base.py", sub(
 R.mutant("benign-select-from-obj-omitted-and-rebound", SEL, sub(
     "        self._from_obj = tuple(existing_from_obj) + tuple(add_froms)\n",
     "        from_objs = tuple(existing_from_obj) + tuple(add_froms)\n        self._from_obj = from_objs\n"), None)
+
+# ---- robustification round (rob-C2): C03-R2 reads _generate()/_clone()/the decorator through the fresh-copy
+# typestate, reaching definitions and the paths on which _memoized_keys is non-empty -- not through local names,
+# the if/else shape or the comprehension idiom
+B = "sql/base.py"
+E = "sql/elements.py"
+_GEN_OLD = ("        skip = self._memoized_keys\n        cls = self.__class__\n        s = cls.__new__(cls)\n        if skip:\n"
+            "            # ensure this iteration remains atomic\n            s.__dict__ = {\n"
+            "                k: v for k, v in self.__dict__.copy().items() if k not in skip\n            }\n"
+            "        else:\n            s.__dict__ = self.__dict__.copy()\n        return s\n\n\nclass InPlaceGenerative(")
+_GEN_TAIL = "\n\n\nclass InPlaceGenerative("
+_CLONE_OLD = ("        skip = self._memoized_keys\n        c = self.__class__.__new__(self.__class__)\n\n        if skip:\n"
+              "            # ensure this iteration remains atomic\n            c.__dict__ = {\n"
+              "                k: v for k, v in self.__dict__.copy().items() if k not in skip\n            }\n"
+              "        else:\n            c.__dict__ = self.__dict__.copy()\n\n        # this is a marker")
+_DEC_OLD = ("        self = self._generate()\n        x = fn(self, *args, **kw)\n"
+            "        assert x is self, \"generative methods must return self\"\n        return self\n")
+R.mutant("clone-shares-dict", E, sub("            c.__dict__ = self.__dict__.copy()\n\n        # this is a marker",
+                                      "            c.__dict__ = self.__dict__\n\n        # this is a marker"), "C03-R2")
+R.mutant("clone-keeps-memoized", E, sub(
+    "            c.__dict__ = {\n                k: v for k, v in self.__dict__.copy().items() if k not in skip\n            }\n",
+    "            c.__dict__ = {\n                k: v for k, v in self.__dict__.copy().items()\n            }\n"), "C03-R2")
+R.mutant("clone-filter-inverted", E, sub(
+    "            c.__dict__ = {\n                k: v for k, v in self.__dict__.copy().items() if k not in skip\n            }\n",
+    "            c.__dict__ = {\n                k: v for k, v in self.__dict__.copy().items() if k in skip\n            }\n"), "C03-R2")
+R.mutant("generate-hoisted-alias-shared-in-else", B, sub(
+    _GEN_OLD,
+    "        skip = self._memoized_keys\n        cls = self.__class__\n        s = cls.__new__(cls)\n        state = self.__dict__\n        if skip:\n"
+    "            s.__dict__ = {k: v for k, v in state.copy().items() if k not in skip}\n"
+    "        else:\n            s.__dict__ = state\n        return s" + _GEN_TAIL), "C03-R2")
+R.mutant("clone-pop-loop-on-the-original", E, sub(
+    _CLONE_OLD,
+    "        skip = self._memoized_keys\n        c = self.__class__.__new__(self.__class__)\n\n        copied = self.__dict__.copy()\n"
+    "        for memoized_key in skip:\n            self.__dict__.pop(memoized_key, None)\n        c.__dict__ = copied\n\n        # this is a marker"), "C03-R2")
+R.mutant("clone-pop-loop-only-when-nothing-memoized", E, sub(
+    _CLONE_OLD,
+    "        skip = self._memoized_keys\n        c = self.__class__.__new__(self.__class__)\n\n        copied = self.__dict__.copy()\n"
+    "        if not skip:\n            for memoized_key in skip:\n                copied.pop(memoized_key, None)\n        c.__dict__ = copied\n\n        # this is a marker"), "C03-R2")
+R.mutant("clone-pop-loop-partial-filter", E, sub(
+    _CLONE_OLD,
+    "        skip = self._memoized_keys\n        c = self.__class__.__new__(self.__class__)\n\n        copied = self.__dict__.copy()\n"
+    "        for memoized_key in skip:\n            if memoized_key.startswith(\"_\"):\n                copied.pop(memoized_key, None)\n        c.__dict__ = copied\n\n        # this is a marker"), "C03-R2")
+R.mutant("decorator-returns-the-original", B, sub(
+    _DEC_OLD, "        generated = self._generate()\n        x = fn(generated, *args, **kw)\n        assert x is generated\n        return self\n"), "C03-R2")
+R.mutant("decorator-copies-only-sometimes", B, sub(
+    _DEC_OLD, "        if args or kw:\n            self = self._generate()\n        x = fn(self, *args, **kw)\n        assert x is self\n        return self\n"), "C03-R2")
+R.mutant("benign-r2-decorator-renamed-locals", B, sub(
+    _DEC_OLD, "        generated = self._generate()\n        result = fn(generated, *args, **kw)\n"
+              "        assert result is generated, \"generative methods must return self\"\n        return generated\n"), None)
+R.mutant("benign-r2-decorator-alias-and-returns-result", B, sub(
+    _DEC_OLD, "        original = self\n        duplicate = original._generate()\n        target = duplicate\n        out = fn(target, *args, **kw)\n"
+              "        assert out is duplicate, \"generative methods must return self\"\n        return out\n"), None)
+R.mutant("benign-r2-generate-hoisted-copy-inverted-branches", B, sub(
+    _GEN_OLD,
+    "        memoized_keys = self._memoized_keys\n        cls = self.__class__\n        new_obj = cls.__new__(cls)\n"
+    "        state = self.__dict__.copy()\n        if not memoized_keys:\n            new_obj.__dict__ = state\n        else:\n"
+    "            new_obj.__dict__ = {\n                k: v for k, v in state.items() if k not in memoized_keys\n            }\n"
+    "        return new_obj" + _GEN_TAIL), None)
+R.mutant("benign-r2-generate-early-return-len-test-dict-generator", B, sub(
+    _GEN_OLD,
+    "        cls = self.__class__\n        s = cls.__new__(cls)\n        if len(self._memoized_keys) == 0:\n"
+    "            s.__dict__ = dict(self.__dict__)\n            return s\n        keys = self._memoized_keys\n"
+    "        s.__dict__ = dict(\n            (k, v) for k, v in self.__dict__.copy().items() if not (k in keys)\n        )\n"
+    "        return s" + _GEN_TAIL), None)
+R.mutant("benign-r2-generate-loop-built-with-continue", B, sub(
+    _GEN_OLD,
+    "        skip = self._memoized_keys\n        cls = self.__class__\n        s = cls.__new__(cls)\n        state = {}\n"
+    "        for k, v in self.__dict__.copy().items():\n            if k in skip:\n                continue\n            state[k] = v\n"
+    "        s.__dict__ = state\n        return s" + _GEN_TAIL), None)
+R.mutant("benign-r2-generate-update-then-pop", B, sub(
+    _GEN_OLD,
+    "        cls = self.__class__\n        s = cls.__new__(cls)\n        s.__dict__.update(self.__dict__)\n"
+    "        for k in self._memoized_keys:\n            if k in s.__dict__:\n                del s.__dict__[k]\n"
+    "        return s" + _GEN_TAIL), None)
+R.mutant("benign-r2-clone-copy-then-pop-loop", E, sub(
+    _CLONE_OLD,
+    "        skip = self._memoized_keys\n        cls = self.__class__\n        c = cls.__new__(cls)\n\n        copied_dict = self.__dict__.copy()\n"
+    "        if skip:\n            for memoized_key in skip:\n                copied_dict.pop(memoized_key, None)\n        c.__dict__ = copied_dict\n\n        # this is a marker"), None)
+R.mutant("benign-r2-clone-key-set-difference", E, sub(
+    _CLONE_OLD,
+    "        skip = self._memoized_keys\n        c = self.__class__.__new__(self.__class__)\n\n        snapshot = self.__dict__.copy()\n"
+    "        c.__dict__ = {k: snapshot[k] for k in snapshot.keys() - skip}\n\n        # this is a marker"), None)
